@@ -156,7 +156,69 @@ def run(chk):
                         nw += 1
                         chk.add(Finding("R12-which", "R12-which::filtered-index::" + ev[1].split("::")[-1], "check_characteristic_common applies %s to the AXIS_DESCR list before enumerate(): the index no longer is the axis position, so a STD_AXIS is compared with the data type of a different AXIS_PTS_x" % ev[1].split("::")[-1], cb.where(ev[4])))
     chk.rule("R12-which", "call sites of calc_compu_method_limits with the provenance of their data type argument", nw, floor=8)
-    chk.assumptions += ["not decided: tolerance arithmetic and the exactness ('reported exactly when')"]
+    # ------------------------------------------------------------------ R12-side
+    # check_limits_valid: the lower comparison involves only the lower limits (declared, calculated and the tolerance derived from
+    # the calculated lower limit), the upper comparison only the upper limits: a tolerance taken from the other side (or from both)
+    # accepts limits far outside the range on the side with the smaller magnitude
+    cb = prog.bodies.get("checker::check_limits_valid")
+    ns = 0
+    if cb is None:
+        chk.add(Finding("R12-side", "R12-side::anchor", "checker::check_limits_valid not found"))
+    else:
+        dep = {}
+        changed = True
+
+        def place_dep(pl):
+            if pl is None:
+                return set()
+            if 1 <= pl["l"] <= cb.argc and pl["p"] and isinstance(pl["p"][0], dict) and pl["p"][0].get("adt") == "(tuple)":
+                return {"%s.%s" % ("declared" if pl["l"] == 1 else "calculated", "lower" if pl["p"][0]["f"] == "0" else "upper")}
+            if 1 <= pl["l"] <= cb.argc:
+                side = "declared" if pl["l"] == 1 else "calculated"
+                return {side + ".lower", side + ".upper"}
+            return set(dep.get(pl["l"], set()))
+        cmps = []
+        while changed:
+            changed = False
+            cmps = []
+            for bi, blk in enumerate(cb.blocks):
+                if blk["cleanup"]:
+                    continue
+                for st in blk["s"]:
+                    if st["k"] != "assign":
+                        continue
+                    srcs = set()
+                    for op in mir.operands_of_rvalue(st["rv"]):
+                        srcs |= place_dep(mir.op_place(op))
+                    if st["rv"]["r"] == "ref":
+                        srcs |= place_dep(st["rv"]["p"])
+                    if st["rv"]["r"] == "bin" and st["rv"]["op"] in ("Le", "Lt", "Ge", "Gt"):
+                        cmps.append((bi, st, srcs))
+                    d = st["p"]["l"]
+                    if not srcs <= dep.get(d, set()):
+                        dep[d] = dep.get(d, set()) | srcs
+                        changed = True
+                t = blk["t"]
+                if t["k"] == "call":
+                    srcs = set()
+                    for a in t["args"]:
+                        srcs |= place_dep(mir.op_place(a))
+                    d = t["dest"]["l"]
+                    if not srcs <= dep.get(d, set()):
+                        dep[d] = dep.get(d, set()) | srcs
+                        changed = True
+        sides = []
+        for bi, st, srcs in cmps:
+            if not any(x.startswith("declared") for x in srcs):
+                continue        # e.g. the preceding `lower > upper` swap of the calculated values
+            ns += 1
+            sides.append(srcs)
+            if not (srcs <= {"declared.lower", "calculated.lower"} or srcs <= {"declared.upper", "calculated.upper"}):
+                chk.add(Finding("R12-side", "R12-side::mixed::" + "+".join(sorted(srcs)), "check_limits_valid compares a declared limit using values of both sides (%s): the tolerance of one limit must be derived from that limit alone" % ", ".join(sorted(srcs)), cb.where(st["ln"])))
+        if ns and not (any("declared.lower" in x for x in sides) and any("declared.upper" in x for x in sides)):
+            chk.add(Finding("R12-side", "R12-side::coverage", "check_limits_valid does not compare both declared limits", cb.where()))
+    chk.rule("R12-side", "comparisons of check_limits_valid that involve one side only (declared/calculated lower, or declared/calculated upper)", ns, floor=2)
+    chk.assumptions += ["not decided: the value of the tolerance and the exactness ('reported exactly when')"]
 
 
 def eval_pair(txt):
